@@ -197,6 +197,41 @@ def run(chk):
         except Exception as e:  # noqa
             chk.violation(f'pathset-{name}-{type(e).__name__}', f'path set {name}: unexpected {type(e).__name__}: {e}', dict(name=name))
         nrej += 1
+    # ---------------- a directory in which a superslab file is missing (a partial download): the directory load is still the concatenation of
+    #                  the per-file loads of the files that are there, each with its OWN particle / cleaning files
+    ngap = 0
+    cat3 = [[cc.TYPES[0], cc.TYPES[3]], [cc.TYPES[4], cc.TYPES[1]], [cc.TYPES[2], cc.TYPES[0], cc.TYPES[3]]]
+    for missing in (0, 1):
+        zd3 = sc.write_catalog(root, cat3)
+        os.remove(os.path.join(zd3, 'halo_info', f'halo_info_{missing:03d}.asdf'))
+        present = [s_ for s_ in range(3) if s_ != missing]
+        for cleaned in (True, False):
+            for subs_ in (dict(A=True, B=True, pos=True, pid=True), dict(B=True, pos=True)):
+                desc = f'directory without halo_info_{missing:03d}.asdf (superslabs {present} present) cleaned={cleaned} subsamples={subs_}'
+                payload = dict(cat=cat3, missing=missing, cleaned=cleaned)
+                try:
+                    dobj = cc.load([zd3, os.path.join(zd3, 'halo_info')][ngap % 2], cleaned=cleaned, subsamples=dict(subs_), fields=['id', 'N'])
+                    fobj = cc.load([os.path.join(zd3, 'halo_info', f'halo_info_{s_:03d}.asdf') for s_ in present], cleaned=cleaned, subsamples=dict(subs_), fields=['id', 'N'])
+                except Exception as e:  # noqa
+                    chk.violation(f'dir-gap-raises-{type(e).__name__}', f'{desc}: {type(e).__name__}: {e}', payload)
+                    continue
+                ngap += 1
+                bad = None
+                for col in dobj.halos.colnames:
+                    if col not in fobj.halos.colnames or not np.array_equal(np.asarray(dobj.halos[col]), np.asarray(fobj.halos[col])):
+                        bad = f'halo column {col}'
+                        break
+                if bad is None:
+                    for col in ('pos', 'pid'):
+                        if col in fobj.subsamples.colnames and not np.array_equal(cc.project(dobj, col), cc.project(fobj, col)):
+                            bad = f'subsample column {col} (particle tokens {cc.project(dobj, col).tolist()[:6]} vs {cc.project(fobj, col).tolist()[:6]})'
+                            break
+                want_ids = [1000 + sc.uid(s_, k_) for s_ in present for k_ in range(len(cat3[s_]))]
+                if bad is None and np.asarray(dobj.halos['id']).astype(np.int64).tolist() != want_ids:
+                    bad = 'halo rows'
+                if bad:
+                    chk.violation('dir-gap-differs', f'{desc}: the directory load differs from the load of the list of its files in {bad}', payload)
+    nload += 2 * ngap
     # ---------------- light cone x filter
     nlc = 0
     for rep in range(6 if chk.quick else 40):
